@@ -8,6 +8,16 @@ ALL = [f'C{i:02d}' for i in range(1, 21)]
 
 # id -> (level text, level note, technique, design ref)
 CHECKS = {
+    'C18': (
+        'Bounded-exhaustive differential exploration: all sequences of 1..3 properties from a 14-text pool (longer ones over a 4-text sub-pool) x every annotation arrangement on a bounded number of members x separators, plus every one-invalid-member variant at every index and the empty/blank/dangling files; the specification parser result is compared index by index (typed tree and metadata) with the property parser on each part, and error classes with the offending part alone.',
+        'The property parser on the parts is the reference; its own correctness is C01. Files longer than the bounds and separators other than the three forms are not explored.',
+        'bounded exhaustive sequence x annotation-arrangement enumeration with a per-part differential oracle',
+    ),
+    'C19': (
+        'Exhaustive exploration of a bounded configuration space: every property skeleton and a fixed corpus covering every node kind (INF/NAN, metadata), every invalid-input class, files with valid/invalid members, missing file and directory, each under all four flag configurations, in-process through hpl.cli.main and as real processes; exit status against the library parser, stdout against a strict JSON parser and an independent mirror serialisation.',
+        'The library parser called directly decides what parses; the mirror serialiser walks attrs fields.',
+        'exhaustive input x flag-configuration enumeration against a strict JSON parser and a mirror serialiser',
+    ),
     'C07': (
         'Bounded-exhaustive robustness exploration: all token sequences up to a length bound for 5 entry points, all single (double) token edits of a corpus, all strings up to length 2/3 over 24 awkward characters and every insertion of each into the corpus, nesting shapes to depth 50, each under a termination watchdog with the documented failure classes as oracle; plus explicit-state exploration of all call histories of length <= 3 (4) on one parser object per entry point against a fresh parser.',
         'Exception messages are compared on their first line (lark prints expected terminals in set order). Inputs longer than the bounds and arbitrary Unicode outside the 24-character alphabet are not explored.',
